@@ -315,13 +315,24 @@ class Runner:
         self.ctx = ctx
         self.drv = halo.Driver(core.REPO, ctx.scratch)
         self.impl = Impl()
-        self.fixed = probe_required_fix(self.drv, self.impl)
-        self.impl.fix_f1 = probe_f1_fix(self.drv, self.impl)
+        try:
+            self.fixed = probe_required_fix(self.drv, self.impl)
+        except Exception:      # noqa: the witness no longer builds: compare with the model of the unchanged code
+            self.fixed = False
+        try:
+            self.impl.fix_f1 = probe_f1_fix(self.drv, self.impl)
+        except Exception:      # noqa
+            self.impl.fix_f1 = False
         self.cases = []        # (kind, coq term, info)
+        self.seen_terms = set()
         self.prop_failures = []   # (key, what, replay)
         self.first_spec = None
 
     def add(self, kind, term, info):
+        self.ctx.hist("model_cases_generated", kind)
+        if term in self.seen_terms:       # the same fact about the same kind of argument / loop / field: evaluated once
+            return
+        self.seen_terms.add(term)
         self.cases.append((kind, term, info))
 
     def one(self, name, spec, steps):
@@ -593,11 +604,12 @@ def run(ctx):
         rn.one("gen%d" % i, spec, steps)
         done += 1
     ctx.notes["generated_cases_run"] = done
-    ctx.log("cases run: %d targeted + %d generated in %.0fs; model cases: %d; property failures: %d"
+    ctx.notes["distinct_model_cases"] = len(rn.cases)
+    ctx.log("cases run: %d targeted + %d generated in %.0fs; distinct model cases: %d; property failures: %d"
             % (len(TARGETED), done, time.time() - t0, len(rn.cases), len(rn.prop_failures)))
     # ---- Coq evaluation
     header = "From PV Require Import C22.Model C22.Required C22.Access C22.Harness.\nOpen Scope N_scope."
-    failing = ctx.coq_eval_failing(header, "hcase", "check", [c[1] for c in rn.cases], shard=ctx.pick(160, 1200))
+    failing = ctx.coq_eval_failing(header, "hcase", "check", [c[1] for c in rn.cases], shard=ctx.pick(max(60, (len(rn.cases) + 3) // 4), 1200))
     bykind = {}
     for c in rn.cases:
         ctx.hist("model_cases", c[0])
